@@ -325,7 +325,7 @@ class AddrWireWorld(World):
     def __init__(self, prop, tier):
         super().__init__(prop, tier)
         q = tier == 'quick'
-        self.legs = [('roundtrip', 256), ('substitution', 96 if q else 2500)]
+        self.legs = [('roundtrip', 256), ('substitution', 96 if q else 2500), ('crowd', 400 if q else 20000)]
         self.budget = {'quick': 100, 'thorough': 1500}
 
     def get_legs(self):
@@ -335,6 +335,8 @@ class AddrWireWorld(World):
         return ('Leg roundtrip: run i takes workchain i-128 (all 256 workchains, exhaustive) with a seeded account id (plus all-zero/all-ones): raw form and all 8 friendly variants are rendered, '
                 'checked against the reference layout (tag, signed workchain byte, account, CRC-16/XMODEM), parsed back: equal address, same bounceable/test-only flags, equal hash(). '
                 'Leg substitution, EXHAUSTIVE per sampled address and variant: all 48 positions x 63 other characters of the variant\'s own alphabet; every substituted text must be rejected. '
+                'Leg crowd: one process renders and parses a FAMILY of related addresses interleaved (neighbours (wc+d, account-d), accounts differing by multiples of 2^61-1 or in one bit, '
+                'the same account in several workchains) in seeded order and variants: every text must be the reference layout of its own address and parse back to it, whatever was rendered or parsed before. '
                 'evaluations = parses; non-trivial = every run (each delivers faults or covers a distinct workchain); distinct = distinct (workchain class, variant set).')
 
     def assumptions(self):
@@ -345,6 +347,9 @@ class AddrWireWorld(World):
         if leg == 'roundtrip':
             acc = [bytes(32), b'\xff' * 32][run_index % 7] if run_index % 7 < 2 else bytes(rng.getrandbits(8) for _ in range(32))
             return {'wc': run_index - 128, 'acc': acc.hex(), 'leg': leg}
+        if leg == 'crowd':
+            return {'wc': rng.choice([-1, 0, 0, -127, 126, rng.randint(-127, 126)]), 'acc': (rng.choice([5, 2 ** 255, 2 ** 256 - 2 ** 62, rng.getrandbits(256) | 2 ** 70]) - 0).to_bytes(32, 'big').hex(), 'leg': leg,
+                    'family': rng.choice(['diagonal', 'mersenne', 'bitflip', 'workchains', 'mixed'])}
         return {'wc': rng.choice([-1, 0, 0, -128, 127, rng.randint(-128, 127)]), 'acc': bytes(rng.getrandbits(8) for _ in range(32)).hex(), 'leg': leg,
                 'variants': sorted(rng.sample(range(8), 3))}
 
@@ -355,8 +360,55 @@ class AddrWireWorld(World):
         b, t, u = VARIANTS[v]
         return call(a.to_str, True, u, b, t)
 
+    # ---- crowd leg: several related addresses in one process ----
+    def _family(self, rng, cfg):
+        wc, h = cfg['wc'], int(cfg['acc'], 16)
+        M = 2 ** 256
+        fam = cfg['family']
+        out = [(wc, h)]
+        if fam in ('diagonal', 'mixed'):
+            out += [(wc + d, (h - d) % M) for d in (-1, 1, 2, -2) if -128 <= wc + d <= 127]
+        if fam in ('mersenne', 'mixed'):
+            out += [(wc, (h + k * (2 ** 61 - 1)) % M) for k in (1, -1, 2)] + [(wc, (h + 2 ** 64) % M), (wc, (h + 2 ** 61) % M)]
+        if fam in ('bitflip', 'mixed'):
+            out += [(wc, h ^ (1 << b)) for b in (0, 7, 8, 255, rng.randrange(256))]
+        if fam in ('workchains', 'mixed'):
+            out += [(w, h) for w in (-1, 0, -128, 127, wc ^ 1 if -128 <= (wc ^ 1) <= 127 else 0)]
+        seen, res = set(), []
+        for m in out:
+            if m not in seen:
+                seen.add(m)
+                res.append(m)
+        return res
+
+    def run_crowd(self, ctx, ops=None):
+        if ops is None:
+            fam = self._family(ctx.rng, ctx.cfg)
+            ops = [{'op': 'member', 'wc': w, 'acc': h.to_bytes(32, 'big').hex()} for w, h in fam]
+            vs = ctx.rng.sample(range(8), 3) + ['raw']
+            renders = [{'op': 'render_member', 'i': i, 'variant': v} for v in vs for i in range(len(fam))]
+            if ctx.rng.random() < 0.5:
+                ctx.rng.shuffle(renders)
+            ops += renders
+            ctx.tag(ctx.cfg['family'], len(fam))
+        members = []
+        ctx.keep_history = True
+        try:
+            for o in ops:
+                if o['op'] == 'member':
+                    ctx.op(o)
+                    members.append({'op': 'address', 'wc': o['wc'], 'acc': o['acc']})
+                elif o['op'] == 'render_member' and members:
+                    ctx.op(o)
+                    ctx.fault('related-address-handled-earlier-in-process') if len(ctx.ops) > len(members) + 1 else None
+                    self._check(ctx, members[o['i'] % len(members)], {'op': 'render', 'variant': o['variant']})
+        finally:
+            ctx.keep_history = False
+
     def run(self, ctx):
         cfg = ctx.cfg
+        if cfg['leg'] == 'crowd':
+            return self.run_crowd(ctx)
         aop = {'op': 'address', 'wc': cfg['wc'], 'acc': cfg['acc']}
         ctx.op(aop)
         ctx.tag(cfg['wc'], cfg.get('variants'), cfg['acc'][:4])
@@ -390,6 +442,8 @@ class AddrWireWorld(World):
             self._check(ctx, aop, rop)
 
     def replay(self, ctx, ops):
+        if any(o['op'] == 'member' for o in ops):
+            return self.run_crowd(ctx, ops)
         a = next((o for o in ops if o['op'] == 'address'), None)
         if a is None:
             return
@@ -511,6 +565,8 @@ class AddrWireWorld(World):
                 return
 
     def _fail(self, ctx, ops, invariant, opkind, klass, msg):
+        if getattr(ctx, 'keep_history', False):
+            return self.V(ctx, invariant, opkind, klass + '/after-related-addresses', msg)
         keep = list(ctx.ops)
         ctx.ops = list(ops)
         self.V(ctx, invariant, opkind, klass, msg)
